@@ -10,6 +10,10 @@ import (
 	"crypto/sha256"
 	"errors"
 	"fmt"
+	ds "github.com/ipfs/go-datastore"
+	dsq "github.com/ipfs/go-datastore/query"
+	dssync "github.com/ipfs/go-datastore/sync"
+	"google.golang.org/protobuf/proto"
 	"sort"
 	"strconv"
 	"strings"
@@ -79,7 +83,8 @@ type duSc struct {
 	Lan      []duPeer `json:"lan"`
 	WanSeeds []int    `json:"wan_seeds"`
 	LanSeeds []int    `json:"lan_seeds"`
-	Op       string   `json:"op"` // putvalue provide getvalue findpeer findprov wanlookup
+	Op       string   `json:"op"`                  // putvalue provide getvalue findpeer findprov wanlookup
+	WanFault string   `json:"wan_fault,omitempty"` // writes: "" | newer-local (the WAN DHT already holds a better record: PutValue fails there) | no-providers (WAN built with DisableProviders: Provide fails there)
 	Key      int      `json:"key"`
 	Target   int      `json:"target"` // findpeer: index into wan (even) or lan (odd) peers
 	Count    int      `json:"count"`
@@ -275,6 +280,9 @@ func dualCheck(prop, part string, ops []string) verifsim.Check[duSc] {
 			}
 			sc.Target = rapid.IntRange(0, 23).Draw(t, "target")
 			sc.Count = rapid.SampledFrom([]int{0, 1, 2, 5}).Draw(t, "count")
+			if (sc.Op == "putvalue" || sc.Op == "provide") && verifsim.Chance(t, "wanFault", 35) {
+				sc.WanFault = map[string]string{"putvalue": "newer-local", "provide": "no-providers"}[sc.Op]
+			}
 			sc.HostAddr = rapid.SliceOfNDistinct(rapid.SampledFrom([]string{"pub4", "pub6", "priv4", "ula6", "lo4"}), 0, 4, func(s string) string { return s }).Draw(t, "hostAddrs")
 			return sc
 		},
@@ -312,10 +320,15 @@ func dualCheck(prop, part string, ops []string) verifsim.Check[duSc] {
 					return nil
 				}
 				common := []dht.Option{dht.DisableAutoRefresh(), dht.BucketSize(sc.K), dht.Validator(record.NamespacedValidator{"v": duValidator{}}), dht.Mode(dht.ModeClient)}
+				lanDS := dssync.MutexWrap(ds.NewMapDatastore())
+				wanOpts := []dht.Option{dht.ProtocolPrefix("/simwan"), dht.WithCustomMessageSender(func(host.Host, []protocol.ID) pb.MessageSenderWithDisconnect { return wan.sim })}
+				if sc.WanFault == "no-providers" {
+					wanOpts = append(wanOpts, dht.DisableProviders())
+				}
 				d, err := New(h,
 					DHTOption(common...),
-					WanDHTOption(dht.ProtocolPrefix("/simwan"), dht.WithCustomMessageSender(func(host.Host, []protocol.ID) pb.MessageSenderWithDisconnect { return wan.sim })),
-					LanDHTOption(dht.ProtocolPrefix("/simlan"), dht.WithCustomMessageSender(func(host.Host, []protocol.ID) pb.MessageSenderWithDisconnect { return lan.sim })))
+					WanDHTOption(wanOpts...),
+					LanDHTOption(dht.Datastore(lanDS), dht.ProtocolPrefix("/simlan"), dht.WithCustomMessageSender(func(host.Host, []protocol.ID) pb.MessageSenderWithDisconnect { return lan.sim })))
 				if err != nil {
 					res.Fail("constructs", "C15/new/error", "%v", err)
 					return
@@ -347,18 +360,42 @@ func dualCheck(prop, part string, ops []string) verifsim.Check[duSc] {
 				var target peer.ID
 				switch sc.Op {
 				case "putvalue":
-					_ = d.PutValue(ctx, key, []byte(fmt.Sprintf("5|k%d|put", sc.Key)))
+					if sc.WanFault == "newer-local" {
+						// the WAN DHT already holds a better record for the key: the dual PutValue below fails on the WAN side
+						_ = d.WAN.PutValue(ctx, key, []byte(fmt.Sprintf("9|k%d|newer", sc.Key)))
+						time.Sleep(time.Minute)
+					}
+					wanActive = d.WAN.RoutingTable().Size() > 0 // (the preparatory put may have evicted failing WAN peers)
+					w0, l0 := count(wan.sim, pb.Message_PUT_VALUE), count(lan.sim, pb.Message_PUT_VALUE)
+					perr := d.PutValue(ctx, key, []byte(fmt.Sprintf("5|k%d|put", sc.Key)))
 					time.Sleep(time.Minute)
-					w, l := count(wan.sim, pb.Message_PUT_VALUE), count(lan.sim, pb.Message_PUT_VALUE)
+					w, l := count(wan.sim, pb.Message_PUT_VALUE)-w0, count(lan.sim, pb.Message_PUT_VALUE)-l0
 					if (wanActive && l > 0) || (!wanActive && w > 0) {
-						res.Fail("write-routing", "C15/putvalue/wrong-network", "WAN table non-empty=%v but PUT_VALUE counts WAN=%d LAN=%d", wanActive, w, l)
+						res.Fail("write-routing", "C15/putvalue/wrong-network", "WAN table non-empty=%v (WAN-side fault %q, PutValue err=%v) but PUT_VALUE counts WAN=%d LAN=%d", wanActive, sc.WanFault, perr, w, l)
+					}
+					if wanActive {
+						// the LAN DHT's own datastore must not have received the record
+						if qr, err := lanDS.Query(ctx, dsq.Query{}); err == nil {
+							for e := range qr.Next() {
+								rec := new(recpb.Record)
+								if proto.Unmarshal(e.Value, rec) == nil && string(rec.GetKey()) == key {
+									res.Fail("write-routing", "C15/putvalue/stored-in-lan", "WAN table non-empty (WAN-side fault %q, PutValue err=%v) but the LAN DHT stored the record locally: %q", sc.WanFault, perr, rec.GetValue())
+								}
+							}
+							qr.Close()
+						}
 					}
 				case "provide":
-					_ = d.Provide(ctx, c, true)
+					perr := d.Provide(ctx, c, true)
 					time.Sleep(time.Minute)
 					w, l := count(wan.sim, pb.Message_ADD_PROVIDER), count(lan.sim, pb.Message_ADD_PROVIDER)
 					if (wanActive && l > 0) || (!wanActive && w > 0) {
-						res.Fail("write-routing", "C15/provide/wrong-network", "WAN table non-empty=%v but ADD_PROVIDER counts WAN=%d LAN=%d", wanActive, w, l)
+						res.Fail("write-routing", "C15/provide/wrong-network", "WAN table non-empty=%v (WAN-side fault %q, Provide err=%v) but ADD_PROVIDER counts WAN=%d LAN=%d", wanActive, sc.WanFault, perr, w, l)
+					}
+					if wanActive && sc.WanFault == "no-providers" {
+						if ps, _ := d.LAN.ProviderStore().GetProviders(ctx, mh.Multihash(mhKey)); len(ps) > 0 {
+							res.Fail("write-routing", "C15/provide/stored-in-lan", "WAN table non-empty and the WAN Provide failed (%v) but the LAN DHT recorded the local node as provider", perr)
+						}
 					}
 				case "getvalue":
 					got, err := d.GetValue(ctx, key)
